@@ -7,6 +7,7 @@ import (
 	"math/big"
 	"strconv"
 
+	genql "github.com/vedadiyan/genql"
 	"github.com/vedadiyan/genql/compare"
 )
 
@@ -30,7 +31,7 @@ func (propC15) ID() string          { return "C15" }
 func (propC15) Imports() []string   { return []string{"Base.Prelude", "Model.Compare", "Run.C15Run"} }
 func (propC15) CheckFn() string     { return "C15Run.check" }
 func (propC15) InputType() string   { return "(gval * gval * (string * string))" }
-func (propC15) ObsType() string     { return "Z" }
+func (propC15) ObsType() string     { return "(Z * (Z * Z))" }
 func (propC15) Exhaustive(string) bool { return true }
 func (propC15) Rule() string {
 	return "all ordered pairs over a finite domain: every Go numeric kind x boundary values (min, -1, 0, 1, max, 2^53 edge, fractions) + strings (empty, numeric-looking, prefixes) + nil/bool; a pair is non-trivial when the two operands differ in kind or value; distinct = distinct (a,b)"
@@ -233,11 +234,34 @@ func (propC15) Observe(raw json.RawMessage) (Observed, error) {
 		}()
 		res = compare.Compare(a, b)
 	}()
+	// the ORDER BY comparator of package genql on two one-key rows, ascending and descending
+	sortRes := func(asc bool) int {
+		out := 2
+		func() {
+			defer func() {
+				if r := recover(); r != nil {
+					out = 2
+				}
+			}()
+			less, err := genql.Compare([]any{map[string]any{"k": a}, map[string]any{"k": b}}, 0, 1,
+				genql.OrderByDefinition{{Key: "k", Value: asc}})
+			if err != nil {
+				out = 2
+			} else if less {
+				out = 1
+			} else {
+				out = 0
+			}
+		}()
+		return out
+	}
+	sa, sd := sortRes(true), sortRes(false)
 	ca, oka := in.A.coq()
 	cb, okb := in.B.coq()
 	if !oka || !okb {
 		return Observed{}, fmt.Errorf("non-finite float in C15 domain")
 	}
 	// Go's own %v text of both operands (standard-library oracle, used only outside the modelled class)
-	return Observed{CoqIn: "(" + ca + ", " + cb + ", (" + coqStr(fmt.Sprintf("%v", a)) + ", " + coqStr(fmt.Sprintf("%v", b)) + "))", CoqObs: coqZi(int64(res)), Note: res}, nil
+	return Observed{CoqIn: "(" + ca + ", " + cb + ", (" + coqStr(fmt.Sprintf("%v", a)) + ", " + coqStr(fmt.Sprintf("%v", b)) + "))", CoqObs: "(" + coqZi(int64(res)) + ", (" + coqZi(int64(sa)) + ", " + coqZi(int64(sd)) + "))",
+		Note: map[string]int{"compare": res, "order_by_less_asc": sa, "order_by_less_desc": sd}}, nil
 }
